@@ -654,6 +654,23 @@ CORPUS = {
   'missing-in-list': case([[1, 2, 3]], (sc(notify=[False]), [LSET, P(0), 1, V('MISSING')]), (NS, [CLONE, P(0), 0]), (NS, [LAPPEND, P(0), V(4)])),
 }
 
+# lists in the 'placeholders pending' state (1-3 elements replaced by MISSING_VALUE while change notification is off: every adjacency pattern on 5
+# positions) copied by every route before the next notification, standalone and nested; then both copies get their notification
+def _placeholder_cases():
+  import itertools
+  base = [{'a': 0}, 1, {'b': 2}, 3, {'c': [4]}]
+  hosts = {'standalone': (lambda l: l, ()), 'in-dict': (lambda l: {'h': l, 'k': 1}, ('h',)), 'in-list': (lambda l: [0, l], (1,)),
+           'in-object': (lambda l: ('obj', 1, {'x': l, 'y': 1}), ('x',))}
+  for r in (1, 2, 3):
+    for S in itertools.combinations(range(5), r):
+      for mode in (0, 1, 2, 3):
+        hname = list(hosts)[(sum(S) + mode + r) % len(hosts)]      # every pattern x every mode; the host rotates
+        wrap, keys = hosts[hname]
+        steps = [(sc(notify=[False]), [LSET, P(0, *keys), i, V('MISSING')]) for i in S]
+        steps += [(NS, [CLONE, P(0), mode]), (NS, [LAPPEND, P(1, *keys), V(7)]), (NS, [LAPPEND, P(0, *keys), V(8)])]
+        yield 'placeholders-%s-%s-mode%d' % (''.join(map(str, S)), hname, mode), case([wrap(list(base))], *steps)
+CORPUS.update(dict(_placeholder_cases()))
+
 # ---- the property run shared by C01 / C07 / C08 ------------------------------------------------------------------
 def describe_diff(case, a, b):
   from harness.lib import tr as trlib
